@@ -182,16 +182,28 @@ def enc_cell(c, v, int_repr=False):
     return enc_cost(c, v)
 
 
+class Raised:
+    def __init__(self, msg):
+        self.msg = msg
+
+    def __repr__(self):
+        return "Raised(%s)" % self.msg
+
+
+def is_raised(r):
+    return isinstance(r, Raised)
+
+
 def guarded(fn):
     try:
         return fn()
     except Exception as exc:  # the library raised where the property promises a value
-        return ("raised", "%s: %s" % (type(exc).__name__, str(exc)[:200]))
+        return Raised("%s: %s" % (type(exc).__name__, str(exc)[:200]))
 
 
 def enc_guarded(c, fn):
     r = guarded(fn)
-    if isinstance(r, tuple) and len(r) == 2 and r[0] == "raised":
+    if is_raised(r):
         return RAISED
     return enc_cost(c, r)
 
@@ -263,7 +275,7 @@ def run_c02(c):
     def add(name, fn):
         routes.append(name)
         r = guarded(fn)
-        if isinstance(r, tuple) and len(r) == 2 and r[0] == "raised":
+        if is_raised(r):
             obs.append(RAISED)
             raws.append(None)
             return
@@ -434,7 +446,7 @@ def run_c04(c):
         routes.append(name)
         negs.append(bool(neg))
         r = guarded(fn)
-        if isinstance(r, tuple) and len(r) == 2 and r[0] == "raised":
+        if is_raised(r):
             mats.append([])
             ds.append(RAISED)
             return
@@ -461,7 +473,7 @@ def run_c04(c):
     r = guarded(lambda: _native_wps(c, True, False, sls))
     routes.append("native:compact+expand")
     negs.append(True)
-    if isinstance(r, tuple) and len(r) == 2 and r[0] == "raised":
+    if is_raised(r):
         mats.append([])
         ds.append(RAISED)
     else:
@@ -523,7 +535,7 @@ def run_c05(c):
     def add(name, fn, with_d=False):
         routes.append(name)
         r = guarded(fn)
-        if isinstance(r, tuple) and len(r) == 2 and r[0] == "raised":
+        if is_raised(r):
             paths.append([[-3, -3]])
             ds.append(ABSENT)
             return
@@ -742,7 +754,7 @@ def run_c10(c):
             return m
         for use_c in (False, True):
             r = guarded(lambda: blk(use_c))
-            if isinstance(r, tuple) and len(r) == 2 and r[0] == "raised":
+            if is_raised(r):
                 rel.append(["matrix[%s]:raised" % ("c" if use_c else "py"), "eq", RAISED, 0])
             else:
                 rel.append(["matrix[%s]:(0,1)=(1,0)" % ("c" if use_c else "py"), "eq", enc_cost(c, r[1]), enc_cost(c, r[2])])
@@ -805,7 +817,7 @@ def run_c11_wps(c):
         routes.append(name)
         negs.append(bool(neg))
         r = guarded(fn)
-        if isinstance(r, tuple) and len(r) == 2 and r[0] == "raised":
+        if is_raised(r):
             mats.append([])
             ds.append(RAISED)
             return
@@ -818,7 +830,7 @@ def run_c11_wps(c):
     r = guarded(lambda: _native_wps(c, True, False, []))
     routes.append("native:compact+expand[ndim]")
     negs.append(True)
-    if isinstance(r, tuple) and len(r) == 2 and r[0] == "raised":
+    if is_raised(r):
         mats.append([])
         ds.append(RAISED)
     else:
@@ -838,7 +850,7 @@ def run_c11_path(c):
     def add(name, fn, with_d=False):
         routes.append(name)
         r = guarded(fn)
-        if isinstance(r, tuple) and len(r) == 2 and r[0] == "raised":
+        if is_raised(r):
             paths.append([[-3, -3]])
             ds.append(ABSENT)
             return
